@@ -569,6 +569,18 @@ class SymInterp(Interp):
                 out = [d[1] - d[0]] + [(d[i + 1] - d[i - 1]) / 2 for i in range(1, n - 1)] + [d[n - 1] - d[n - 2]]
                 return SArr((n,), out)
             return gradient
+        if name == "take":
+            def take(a, indices, axis=None, **k):
+                a = S.asarr(a)
+                if k:
+                    raise AnalysisAbort(f"np.take keyword(s) {sorted(k)}")
+                if axis is None:
+                    a = SArr((a.size,), list(a.data), dtype=a.dtype)
+                    axis = 0
+                ax = int(axis) % a.ndim
+                key = tuple([slice(None)] * ax + [indices])
+                return a[key]
+            return take
         if name == "fromiter":
             def fromiter(it, dtype=None, count=-1):
                 vals = [(rat(int(v)) if isinstance(v, bool) else v) for v in I.iterate(it)]
